@@ -77,7 +77,8 @@ func vh_C18_L2_block_write_gate() {
 		vcover("deadline")
 	case 1:
 		// the writer drains the pending queue: the gate opens exactly then
-		a.cwnd, a.rwnd = 1<<20, 1<<20
+		a.cwnd = 1 << 20
+		a.rwnd = []uint32{1 << 20, 0}[vPick(2)] // with a zero peer window the last pending chunk leaves as the window probe
 		pkts := vWriterPass(a)
 		vassert(len(pkts) >= 1 && a.pendingQueue.size() == 0, "pending data handed to transmission")
 		vassert(!a.writePending, "the gate opens once everything pending has been handed over")
@@ -86,3 +87,6 @@ func vh_C18_L2_block_write_gate() {
 		vcover("drained")
 	}
 }
+
+// C18.L2b: a failed write restores exactly the counter it consumed (same obligation as vh_C15_L1).
+func vh_C18_L2_failed_write_restores_numbers() { vh_C15_L1_write_accounting() }
